@@ -1,4 +1,4 @@
-use crate::backend::GenericSocketBackend;
+use crate::backend::{ForgetConn, GenericSocketBackend};
 use crate::codec::*;
 use crate::endpoint::Endpoint;
 use crate::error::{ZmqError, ZmqResult};
@@ -76,7 +76,8 @@ impl SocketRecv for RouterSocket {
                     // tracing::warn!("Received unimplemented message type: {:?}", msg);
                 }
                 Some((peer_id, Err(_e))) => {
-                    self.backend.peer_disconnected(&peer_id);
+                    self.backend
+                        .forget_conn(&peer_id, self.fair_queue.last_conn());
                     // We could take an approach of using `tracing` and have that be an optional feature
                     // tracing::error!("Error receiving message from peer {}: {:?}", peer_id, e);
                 }
@@ -99,12 +100,16 @@ impl SocketSend for RouterSocket {
             ));
         }
         let peer_id: PeerIdentity = message.pop_front().unwrap().try_into()?;
-        match self.backend.peers.get_async(&peer_id).await {
-            Some(mut peer) => {
-                let sent = peer.send_queue.send(Message::Message(message)).await;
-                drop(peer);
+        match self.backend.peer(&peer_id).await {
+            Some(peer) => {
+                let sent = peer
+                    .send_queue
+                    .lock()
+                    .await
+                    .send(Message::Message(message))
+                    .await;
                 if let Err(e) = sent {
-                    self.backend.forget_peer(&peer_id).await;
+                    self.backend.forget_conn(&peer_id, peer.conn);
                     return Err(e.into());
                 }
                 Ok(())
